@@ -148,6 +148,14 @@ def run_query_cases(report, cases, opts, judge):
             if c.get('quant') == 'an' and 'pre_take' not in c and r.random() < rate:
                 c['pre_take'] = r.randint(1, 3)
                 report.count('after_an_abandoned_evaluation')
+    # 8 % of the cases run on SIZED classes: an object with a == 0 is a falsy object (impl._Sized); nothing may change
+    if opts.get('sized', 0.08) and len(cases) > 1:
+        import random
+        r2 = random.Random(getattr(report, 'seed', 0) * 104729 + len(cases))
+        for c in cases:
+            if 'sized_objs' not in c and r2.random() < opts.get('sized', 0.08):
+                c['sized_objs'] = True
+                report.count('sized_classes_falsy_objects')
     jobs = [(c, opts) for c in cases]
     results = pmap(eval_case, jobs)
     good = [(c, r) for c, r in zip(cases, results) if 'spec_exc' not in r]
